@@ -498,8 +498,11 @@ func checkMain(args []string) {
 			if !reproduced && rs.EngineConfirm != "" && len(g.vs) > 0 {
 				if m, _ := regexp.MatchString(rs.EngineConfirm, g.vs[0].Label); m {
 					fl := *ls
-					fl.Fixed = g.vs[0].Model
-					r2 := explore(pl, &fl, exploreOpts{Workers: 1, MaxPaths: 50, Samples: 0, MaxViol: 50})
+					fl.Fixed = g.vs[0].Choices
+					if len(fl.Fixed) == 0 {
+						fl.Fixed = g.vs[0].Model
+					}
+					r2 := explore(pl, &fl, exploreOpts{Workers: 4, MaxPaths: 400, Samples: 0, MaxViol: 50})
 					for _, v2 := range r2.Violations {
 						if v2.Label == g.vs[0].Label {
 							reproduced = true
